@@ -855,9 +855,9 @@ SEEDS = [
     ("fixed-737afb8-llong-min-mod", b"long long y = (-9223372036854775807LL - 1) % -1;\n", []),
     ("fixed-737afb8-unevaluated-div", b"int x = 1 || (1 / 0);\n", []),
     ("fixed-10582f3-nan-to-int", b"int x = (int)(0.0 / 0.0);\n", []),
-    ("va-arg-without-type", b"void f(__builtin_va_list ap) { __builtin_va_arg(ap, ); }\n", []),
-    ("va-arg-without-type-value", b"int f(__builtin_va_list ap) { return __builtin_va_arg(ap, ); }\n", []),
-    ("offsetof-without-type", b"int x = __builtin_offsetof(, x);\n", []),
+    ("fixed-4efa8f7-va-arg-without-type", b"void f(__builtin_va_list ap) { __builtin_va_arg(ap, ); }\n", []),
+    ("fixed-4efa8f7-va-arg-without-type-value", b"int f(__builtin_va_list ap) { return __builtin_va_arg(ap, ); }\n", []),
+    ("fixed-4efa8f7-offsetof-without-type", b"int x = __builtin_offsetof(, x);\n", []),
     ("fixed-4544836-anon-member-designator", b"struct A { struct { int q; char r; }; int t; }; struct A o = {.q = 1, 2, 3};\n", []),
     ("union-reinit", b"union U { int a; struct { short p; char c; int a; } p; }; union U obj = {70000, .p = {1000, 1, .a = 5}};\n", []),
     ("fixed-24ff3f5-keyword-macro-twice", b"#define T int\nT a; T b;\n", []),
